@@ -50,6 +50,31 @@ example : addrByEUI64 (.net (0x20010db8 <<< 96)) (.eui48 0x00163e334455)
     = .ok (.v6 0x20010db80000000002163efffe334455) ∧
     macOf (.v6 0x20010db80000000002163efffe334455) = .ok 0x00163e334455 := by decide
 
+/-- **Injectivity.**  Within one network (low 64 bits zero) two different 48-bit MACs never get the same
+    address: if the addresses agree, so do the MACs (a consequence of the round trip) -/
+theorem eui64_injective (net mac mac' : Nat) (hmac : mac < 2^48) (hmac' : mac' < 2^48)
+    (hnet : net % 2^64 = 0) (hlt : net < 2^128)
+    (h : addrByEUI64 (.net net) (.eui48 mac) = addrByEUI64 (.net net) (.eui48 mac')) : mac = mac' := by
+  obtain ⟨a, ha, hm⟩ := mac_of_eui64_addr net mac hmac hnet hlt
+  obtain ⟨a', ha', hm'⟩ := mac_of_eui64_addr net mac' hmac' hnet hlt
+  rw [ha, ha'] at h
+  have haa : a = a' := by injection h with h; injection h
+  subst haa
+  rw [hm] at hm'
+  injection hm'
+
+/-- the address is a function of the network and the MAC only (two calls agree), and it always succeeds on
+    this domain: never an error for a 48-bit MAC and a ≤ /64 IPv6 network -/
+theorem eui64_total_on_domain (net mac : Nat) (hmac : mac < 2^48) (hnet : net % 2^64 = 0) (hlt : net < 2^128) :
+    ∃ a, addrByEUI64 (.net net) (.eui48 mac) = .ok (.v6 a) ∧ a / 2^64 = net / 2^64 := by
+  obtain ⟨h1, h2⟩ := lemma_combine_range net mac hmac hnet hlt
+  refine ⟨combine net (eui64Of48 mac), ?_, ?_⟩
+  · simp only [addrByEUI64, eui64Value, ipAddressOfInt]
+    rw [if_neg (by omega), if_pos h2]
+  · rw [lemma_combine_arith net mac hmac hnet]
+    have hf := lemma_flip17_lt (mac / 2^24) (by omega)
+    omega
+
 /-- The zero-low-64-bits hypothesis is needed: for the /128 "prefix" ::1 and the MAC
     00:00:00:00:00:00 the code adds the interface identifier onto the host part and the MAC that
     comes back is 00:00:00:00:00:01 (the real code returns ::200:ff:fe00:1 for `('::1', 0)`). -/
